@@ -23,8 +23,8 @@ func ValueTexts(tier string) []string {
 		`1 + 2`, `decl.foo == 1`, `!decl.foo`, `-1`, `true ? decl.foo : "b"`, `true ? null : "a"`, `(decl.foo)`, `decl.foo[decl.foo.bar]`, `decl.foo.*.id`,
 		`["a", true, f]`, `[1, 2, 3]`, `{ foo = "x", "${decl.foo}" = 1 }`, `{ foo = "x", (decl.foo) = true }`, `{ foo = "x", 42 = 1 }`, `provider::aws::x€ `, `provider::aw» y`,
 		`fn2(1, )`, `fn(fn2(1, ), "b")`, `[decl.foo, decl.bar, decl.foo]`,
-		"{\n  \u00e9\n}", "{\n  \u00e9t\u00e9 = \"x\"\n  \u00e9c\n}", "{ \u00e9", "{\n  \"\u00e9\n}", `provider::\u00e9`, `provider::\u00e9::x`, `provider::aws::\u00e9t("a")`, `decl.foo.0`, `decl.foo.10.x`, `list()`, `map()`, `object()`,
-`true ? [decl.foo.bar, "x"] : []`, `true ? { k = decl.foo.bar } : {}`, "decl.foo[\n\"k\"\n]", "(decl.\nfoo)", "decl.foo[\n  0\n].x", `1 < decl.foo.id`, `decl.foo.id >= 2`, `decl.foo.bar == "x"`, `decl. foo`, `decl .foo.bar`, `ns ::fn(1)`, `provider::  aws::xy("a")`, `provider :: aws::x`, `[fn2(1, ]`, `sh1("a", "b")`, `sh3("a", "b", )`, `sh1("a", sh3("x", "y", "z"))`, `{ foo = decl.foo.bar, bar = true }`, `{ k = decl.foo.bar }`, `[decl.foo.bar]`,
+		"{\n  \u00e9\n}", "{\n  \u00e9t\u00e9 = \"x\"\n  \u00e9c\n}", "{ \u00e9", "{\n  \"\u00e9\n}", `provider::é`, `provider::é::x`, `provider::aws::ét("a")`, `decl.foo.0`, `decl.foo.10.x`, `list()`, `map()`, `object()`,
+`provider::éa`, `provider::éa::x("a")`, `vf(1, decl.foo.id, decl.foo.id)`, `{ ("k") = 1, null = 2, true = 3 }`, `true ? [decl.foo.bar, "x"] : []`, `true ? { k = decl.foo.bar } : {}`, "decl.foo[\n\"k\"\n]", "(decl.\nfoo)", "decl.foo[\n  0\n].x", `1 < decl.foo.id`, `decl.foo.id >= 2`, `decl.foo.bar == "x"`, `decl. foo`, `decl .foo.bar`, `ns ::fn(1)`, `provider::  aws::xy("a")`, `provider :: aws::x`, `[fn2(1, ]`, `sh1("a", "b")`, `sh3("a", "b", )`, `sh1("a", sh3("x", "y", "z"))`, `{ foo = decl.foo.bar, bar = true }`, `{ k = decl.foo.bar }`, `[decl.foo.bar]`,
 		"{\r\n}\r", "{\r\n  foo = \"x\"\r\n}\r", "[\r\n  \"a\",\r\n]\r", "fn(\r\n  \"a\"\r\n)\r", `[null, "b"]`,
 		`string`, `list(string)`, `object({a=string})`, `tuple([string, bool])`, `map(any)`, `object({a=optional(string)})`, `list(`, `object({`, `any`,
 	}
@@ -47,6 +47,8 @@ func Functions() map[string]schema.FunctionSignature {
 	return map[string]schema.FunctionSignature{
 		"sh1": {ReturnType: cty.String, Params: table[:1], VarParam: &function.Parameter{Name: "more", Type: cty.String}},
 		"sh3": {ReturnType: cty.String, Params: table[:3]},
+		// a namespaced name with a multi-byte segment
+		"provider::\u00e9a::x": {ReturnType: cty.String, Params: []function.Parameter{{Name: "s", Type: cty.String}}},
 		"fn": {
 			Description: "fn desc", ReturnType: cty.String,
 			Params: []function.Parameter{{Name: "a", Type: cty.String, Description: "param a"}},
